@@ -193,6 +193,10 @@ class Run(object):
                 if cres["rc"] != 0 or cres["distinct"] != nb + len(b):
                     self.machinery.append("conform tlc rc=%s distinct=%s expected=%s\n%s" % (
                         cres["rc"], cres["distinct"], nb + len(b), cres["out"][-3000:]))
+                    os.makedirs(OUT, exist_ok=True)
+                    with open(os.path.join(OUT, "tlc_failure_conform_%s.log" % self.prop), "w") as f:
+                        f.write(cres["out"])
+                    shutil.copy(path, os.path.join(OUT, "tlc_failure_conform_%s.batch.json" % self.prop))
                 ds = tlc.verdicts(cres["out"], "D")
                 self.divergences += len(ds)
                 self.conform_nodes += nb
